@@ -499,6 +499,7 @@ impl World for W5 {
                     ignore_path_and_query_case: false,
                     always_match_any_host: true,
                     ignore_marketing_query_params: true,
+                    marketing_list: None,
                 },
                 rules,
                 request: Probe {
@@ -524,6 +525,7 @@ impl World for W5 {
                 ignore_path_and_query_case: rng.chance(1, 3),
                 always_match_any_host: rng.coin(),
                 ignore_marketing_query_params: rng.coin(),
+                marketing_list: crate::w1::Cfg::gen_marketing_list(rng),
             };
             let swarm = Swarm::new(rng);
             let rg = RuleGen::new(rng);
